@@ -223,6 +223,7 @@ package aper
 //@ let b0 := vcBitLen(pd)
 //@ let old0 := append([]byte(nil), pd.bytes...)
 //@ ensures refuse: vc.Imp(valueRange < 0 || valueRange > 65536, err != nil)
+//@ ensures refusebig: vc.Imp(valueRange >= 1 && valueRange <= 65536 && value >= 65536, err != nil)
 //@ ensures einv: vcEInv(pd)
 //@ ensures grows: vcBitLen(pd) >= b0 && vcBitLen(pd) <= b0+7+16
 //@ ensures field: vc.Imp(err == nil && valueRange <= 255, vcBitLen(pd) == b0+uint64(per.FieldWidth(valueRange)))
@@ -240,6 +241,7 @@ package aper
 //@ let old0 := append([]byte(nil), pd.bytes...)
 //@ ensures einv: vcEInv(pd)
 //@ ensures grows: vcBitLen(pd) >= b0 && vcBitLen(pd) <= b0+7+16
+//@ ensures refusebig: vc.Imp(sizeRange >= 1 && sizeRange <= 65536 && value >= 65536, err != nil)
 //@ ensures unconstrained: vc.Imp(!(sizeRange <= 65536 && sizeRange > 0), err == nil && pd.bitsOffset == 0 && uint64(len(pd.bytes)) == (b0+7)>>3+uint64(per.LengthOctets(value)))
 //@ ensures prefix: vc.Forall(0, int(b0>>3), func(t int) bool { return pd.bytes[t] == old0[t] })
 //@ assigns &pd.bytes, &pd.bitsOffset
@@ -287,3 +289,63 @@ package aper
 //@ trusted
 //@ func Marshal
 //@ trusted
+
+// CHOICE index (X.691 22): the index present-1 as a constrained whole number 0..ub; an unset CHOICE
+// (present = 0) is refused.
+//@ func (*perRawBitData).appendChoiceIndex
+//@ prop C03
+//@ maynil upperBoundPtr
+//@ requires einv: vcEInv(pd) && len(pd.bytes) <= 1<<22
+//@ requires ub: (upperBoundPtr == nil || *upperBoundPtr < 65536) && present >= 0 && present <= 1<<16
+//@ let b0 := vcBitLen(pd)
+//@ ensures refuse: vc.Imp(upperBoundPtr == nil || *upperBoundPtr < 0 || present < 1, result != nil)
+//@ ensures einv: vcEInv(pd) && vcBitLen(pd) >= b0
+//@ ensures width: vc.Imp(result == nil && *upperBoundPtr < 255, vcBitLen(pd) == b0+uint64(per.FieldWidth(*upperBoundPtr+1)))
+//@ assigns &pd.bytes, &pd.bitsOffset
+
+// OCTET STRING (X.691 17) below the fragmentation threshold: a string longer than a non-extensible
+// upper bound, or of another size than a fixed one, is refused; a fixed size of at most two octets is
+// not aligned, anything else is (17.6, 17.7); nothing before the last octet changes.
+//@ func (*perRawBitData).appendOctetString
+//@ prop C03
+//@ maynil lowerBoundPtr upperBoundPtr
+//@ requires einv: vcEInv(pd) && len(pd.bytes) <= 1<<22
+//@ requires small: len(bytes) < 16384
+// (the size constraints of TS 38.413 have both bounds or none: the struct tags carry sizeLB and sizeUB together)
+//@ requires bounds: (lowerBoundPtr == nil) == (upperBoundPtr == nil) && (lowerBoundPtr == nil || (0 <= *lowerBoundPtr && *lowerBoundPtr <= *upperBoundPtr && *upperBoundPtr < 1<<32))
+//@ let b0 := vcBitLen(pd)
+//@ let old0 := append([]byte(nil), pd.bytes...)
+//@ ensures toolong: vc.Imp(upperBoundPtr != nil && !extensive && int64(len(bytes)) > *upperBoundPtr, result != nil)
+//@ ensures fixedsize: vc.Imp(upperBoundPtr != nil && !extensive && *lowerBoundPtr == *upperBoundPtr && int64(len(bytes)) != *upperBoundPtr, result != nil)
+//@ ensures tooshort: vc.Imp(lowerBoundPtr != nil && int64(len(bytes)) < *lowerBoundPtr, result != nil)
+//@ ensures einv: vcEInv(pd) && vcBitLen(pd) >= b0
+//@ ensures fixed2: vc.Imp(result == nil && upperBoundPtr != nil && !extensive && *lowerBoundPtr == *upperBoundPtr && *upperBoundPtr <= 2, vcBitLen(pd) == b0+8*uint64(len(bytes)))
+//@ ensures fixedn: vc.Imp(result == nil && upperBoundPtr != nil && !extensive && *lowerBoundPtr == *upperBoundPtr && *upperBoundPtr > 2 && *upperBoundPtr < 65536, pd.bitsOffset == 0 && uint64(len(pd.bytes)) == (b0+7)>>3+uint64(len(bytes)))
+//@ ensures prefix: vc.Forall(0, int(b0>>3), func(t int) bool { return pd.bytes[t] == old0[t] })
+//@ assigns &pd.bytes, &pd.bitsOffset
+//@ loop rawLength unroll 3
+
+// BIT STRING (X.691 16) below the fragmentation threshold, for a string held in exactly the octets its
+// length needs: longer than a non-extensible upper bound, shorter than the lower bound or of another
+// size than a fixed one is refused; a fixed size of at most 16 bits is not aligned, anything else is
+// (16.9, 16.10); nothing before the last octet changes.  (The padding bits of the caller's last octet are cleared.)
+//@ func (*perRawBitData).appendBitString
+//@ prop C03
+//@ maynil lowerBoundPtr upperBoundPtr
+//@ requires einv: vcEInv(pd) && len(pd.bytes) <= 1<<22
+//@ requires small: bitsLength < 16384 && uint64(len(bytes)) == (bitsLength+7)>>3
+//@ requires bounds: (lowerBoundPtr == nil) == (upperBoundPtr == nil) && (lowerBoundPtr == nil || (0 <= *lowerBoundPtr && *lowerBoundPtr <= *upperBoundPtr && *upperBoundPtr < 1<<32))
+//@ let b0 := vcBitLen(pd)
+//@ let old0 := append([]byte(nil), pd.bytes...)
+//@ let r := vcRange(lowerBoundPtr, upperBoundPtr)
+//@ ensures toolong: vc.Imp(upperBoundPtr != nil && !extensive && bitsLength > uint64(*upperBoundPtr), err != nil)
+//@ ensures fixedsize: vc.Imp(r == 1 && !extensive && bitsLength != uint64(*upperBoundPtr), err != nil)
+//@ ensures tooshort: vc.Imp(lowerBoundPtr != nil && bitsLength < uint64(*lowerBoundPtr), err != nil)
+//@ ensures offset: pd.bitsOffset <= 7 && (pd.bitsOffset == 0 || len(pd.bytes) > 0)
+//@ ensures grows: vcBitLen(pd) >= b0
+//@ ensures einv: vc.Imp(err == nil, vcEInv(pd))
+//@ ensures fixed16: vc.Imp(err == nil && r == 1 && !extensive && bitsLength <= 16, vcBitLen(pd) == b0+bitsLength)
+//@ ensures fixedn: vc.Imp(err == nil && r == 1 && !extensive && bitsLength > 16, vcBitLen(pd) == ((b0+7)>>3)*8+bitsLength)
+//@ ensures prefix: vc.Forall(0, int(b0>>3), func(t int) bool { return pd.bytes[t] == old0[t] })
+//@ assigns &pd.bytes, &pd.bitsOffset, bytes
+//@ loop rawLength unroll 3
